@@ -275,6 +275,7 @@ class Sym:
         self.opaque = opaque
         self.inline_depth = inline_depth
         self.inline_mut = inline_mut      # also inline local helpers that take `&mut` places (not generic sinks)
+        self.tsubst = []                  # stack of {generic parameter name: concrete type} of the helpers being inlined
         self.loops = {}       # id(loop node) -> dict(node, entry, paths)
         self._reserved = {}
         self._next_loop = 0
@@ -820,6 +821,12 @@ class Sym:
         return [(st, (CONT, None))]
 
     # ---- places & assignment ---------------------------------------------------------------------------------------------
+    def subst_ty(self, t):
+        for m in reversed(self.tsubst):
+            if m:
+                t = re.sub(r"\b(%s)\b" % "|".join(re.escape(g) for g in m), lambda mo: m[mo.group(1)], t)
+        return t
+
     def place_of(self, n, st):
         """(root var id, root name, field path tuple) for Var/Field chains; None otherwise"""
         n = F.strip(n)
@@ -1016,7 +1023,14 @@ class Sym:
                                      and not any(re.match(r"^&mut [A-Z]\w*$", (p_.get("ty") or "")) for p_ in b["params"]))
             if b["krate"] in self.krates and not self.opaque(tgt) and tgt not in self.stack \
                     and len(self.stack) <= self.inline_depth and mut_ok and not has_loop(b):
-                res = self.eval_body(b, vals, St(conds=st.conds, effects=st.effects, n=st.n))
+                # generic helper: remember what its type parameters stand for at this call site (type-qualified callee names
+                # inside it - Pod::slice_from_prefix<T>, parse::<F> - must name the concrete type)
+                gens, targs = b.get("generics") or [], [self.subst_ty(t_) for t_ in (f.get("targs") or [])]
+                self.tsubst.append({g: t_ for g, t_ in zip(gens, targs) if not g.startswith("'")} if len(gens) == len(targs) else {})
+                try:
+                    res = self.eval_body(b, vals, St(conds=st.conds, effects=st.effects, n=st.n))
+                finally:
+                    self.tsubst.pop()
                 out = []
                 for s2, (k, v) in res:
                     s3 = st.copy()
@@ -1034,11 +1048,12 @@ class Sym:
             path = tgt
         # 3. opaque: pure term if no &mut argument, effectful otherwise
         name = short_path(path)
-        if f.get("trait") and f.get("mentions") and f.get("targs") and not f["trait"].startswith(("std::", "core::", "alloc::")):
-            name += "<%s>" % f["targs"][0]      # static trait call: keep the Self type (e.g. Pod::slice_from_prefix<Member>)
+        if f.get("trait") and f.get("targs") and not f["trait"].startswith(("std::", "core::", "alloc::")) \
+                and (f.get("mentions") or self.subst_ty(f["targs"][0]) != f["targs"][0]):
+            name += "<%s>" % self.subst_ty(f["targs"][0])      # static trait call: keep the Self type (e.g. Pod::slice_from_prefix<Member>)
         if name in RET_POLY and f.get("targs"):
             # the result depends on a type argument that no value argument determines (`s.parse::<u32>()`)
-            name += "::<%s>" % f["targs"][-1]
+            name += "::<%s>" % self.subst_ty(f["targs"][-1])
         if not mut_idx:
             return [(st, (VAL, ("call", name, tuple(vals))))]
         s = st.copy()
